@@ -142,6 +142,12 @@ class CacheWorld(W.World):
         self.read_states = set()   # ids of state objects some read has evaluated (they are kept alive by the groups / memo)
         self.detail = None
         self.dirty = False
+        self.keep = []
+
+    def mark_read(self, st):
+        if id(st) not in self.read_states:
+            self.read_states.add(id(st))
+            self.keep.append(st)        # ids must never be reused while they are in the set
 
     def view_for(self, d, vi):
         v = VIEWS[vi % len(VIEWS)]
@@ -204,7 +210,7 @@ def apply_op(w, op, res, reading, skip=False):
                 view = w.view_for(d, op[3])
                 if view is not None:
                     res.probe('view_read')
-                w.read_states.add(id(g.subset_state))
+                w.mark_read(g.subset_state)
                 for _ in range(op[4]):
                     d.get_mask(g.subset_state, view=view)
             elif k == 'read_val':
@@ -214,13 +220,13 @@ def apply_op(w, op, res, reading, skip=False):
                 cid = w.pick_cid(d, op[2], True)
                 g = w.pick_group(op[4]) if op[4] is not None else None
                 if g is not None:
-                    w.read_states.add(id(g.subset_state))
+                    w.mark_read(g.subset_state)
                 d.compute_statistic(op[3], cid, subset_state=g.subset_state if g is not None else None)
             elif k == 'read_hist':
                 cid = w.pick_cid(d, op[2], True)
                 g = w.pick_group(op[3]) if op[3] is not None else None
                 if g is not None:
-                    w.read_states.add(id(g.subset_state))
+                    w.mark_read(g.subset_state)
                 d.compute_histogram([cid], range=[(-5, 13)], bins=[6], subset_state=g.subset_state if g is not None else None)
             elif k == 'read_copy':
                 g = w.pick_group(op[2])
@@ -434,7 +440,7 @@ def observe(w):
         rec['vals'].extend(sorted(ext))
         nums = [c for c in d.main_components if d.get_kind(c) == 'numerical'][:2]
         for gi, g in enumerate(groups):
-            w.read_states.add(id(g.subset_state))
+            w.mark_read(g.subset_state)
             st, m = W.mask_of(d, g.subset_state)
             rec['masks'].append([gi, W.arr_digest(m) if st == 'ok' else st])
             if st != 'ok' or gi > 1:
